@@ -78,6 +78,12 @@ class StubValidatorClass:
             def iter_errors(self, instance, *a):
                 outer.log.append((outer.name, "iter_errors", instance))
                 n = instance.get("errors", 0) if isinstance(instance, dict) else 0
+                if isinstance(instance, dict) and instance.get("then_raise"):
+                    def gen():
+                        for i in range(n):
+                            yield outer.VE("E%d" % i, instance=instance)
+                        raise PyRaise("RuntimeError", "the validator fails part-way")
+                    return gen()
                 return iter([outer.VE("E%d" % i, instance=instance) for i in range(n)])
         return Inst()
 
@@ -88,7 +94,8 @@ class _Tty(io.StringIO):
         return True
 
 
-def run_scenario(prog, schema_state, instances, output="plain", explicit=False, base_uri=None, stdin_state=None, repeat_first=False, names=None, decoys=None, tty=False):
+def run_scenario(prog, schema_state, instances, output="plain", explicit=False, base_uri=None, stdin_state=None, repeat_first=False, names=None, decoys=None, tty=False,
+                 _err=None):
     """-> dict(exit, opened, log, out, err)"""
     ev = Ev(prog, fuel=120000, real_errors=True)
     Obj.ev = ev
@@ -113,7 +120,7 @@ def run_scenario(prog, schema_state, instances, output="plain", explicit=False, 
     ev.preset("validators", "Draft7Validator", chosen)
     other = StubValidatorClass("Other", ev, log, SE, VE)
     ev.module_value("validators", "meta_schemas")["http://reg/other"] = other
-    out, err = io.StringIO(), io.StringIO()
+    out, err = io.StringIO(), (_err if _err is not None else io.StringIO())
     SIO = _Tty if tty else io.StringIO
     if stdin_state is None:
         stdin = SIO("")
@@ -137,6 +144,28 @@ def run_scenario(prog, schema_state, instances, output="plain", explicit=False, 
     declared = isinstance(schema_state, dict) and schema_state.get("$schema") == "http://reg/other#"
     return {"exit": code, "opened": opened, "log": log, "out": out.getvalue(), "err": err.getvalue(), "paths": paths,
             "cls": "Given" if explicit else ("Other" if declared else "Chosen")}
+
+
+def as_produced_eval(prog):
+    """Errors are written as the library produces them: when the validator fails part-way through an instance (an unresolvable
+    reference behind the third keyword), the errors it had reported before are on stderr by then.  '' | difference | None."""
+    try:
+        for output in ("plain", "pretty"):
+            err = io.StringIO()
+            try:
+                ev_res = run_scenario(prog, {"type": "object"}, [{"errors": 2, "then_raise": True}], output=output, _err=err)
+                return "a validator failing part-way through an instance does not make run() fail (exit %r)" % (ev_res["exit"],)
+            except PyRaise as pr:
+                if pr.name != "RuntimeError":
+                    return "a validator failing part-way surfaces as %s" % pr.name
+            text = err.getvalue()
+            n_reports = (text.count("<E0>") + text.count("<E1>")) if output == "plain" else text.count("[ValidationError]")
+            if n_reports != 2:
+                return ("%s output: the validator reported two errors and then failed; stderr holds %r -- the errors already reported are not written as they "
+                        "are produced" % (output, text[:120]))
+    except Undecided:
+        return None
+    return ""
 
 
 def cli_eval(prog):
@@ -232,6 +261,10 @@ def cli_eval(prog):
                     out["resolver"] = out["resolver"] or "%s: a resolver is built although no base URI was given (the class would build its own)" % label
                 if base is not None and not (isinstance(rv, Obj) and rv.cls.name == "RefResolver" and ev_attr(rv, "resolution_scope") == base and ev_attr(rv, "referrer") == sst):
                     out["resolver"] = out["resolver"] or "%s: the resolver is not one for the given base URI and the loaded schema" % label
+                elif base is not None and (dict(ev_attr(rv, "handlers")) or ev_attr(rv, "cache_remote") is not True):
+                    # how referenced files are retrieved is the resolver's business (its handling of file: URLs, percent-escapes included)
+                    out["resolver"] = out["resolver"] or "%s: the --base-uri resolver is given retrieval handlers of the CLI's own (%r) / caching switched off" % (
+                        label, sorted(dict(ev_attr(rv, "handlers"))))
             # reports: one per error; diagnostics: one per unreadable/unparsable file
             n_err = sum(n_errors(s) for s in states if loadable(s))
             n_missing = sum(1 for s in states if s == MISSING)
